@@ -12,8 +12,10 @@
    well-formed metamodel (C11_…_in_every_reachable_state below, through the global
    ownership invariant of Proofs/OwnAll.v), so the two theorems hold at any
    point of any editing history.
-   PARTIAL: name-based fragments of metamodel elements and ids after a load
-   are decided by the implementation oracle only (harness/props/c11.py);
+   IDS (second part of this file): the uuid / id-attribute half is a separate model,
+   Model/IdFrag.v, with its own theorems (C11_id_...) and correspondence (run_idfrag).
+   PARTIAL: name-based fragments of metamodel elements are decided by the
+   implementation oracle only (harness/props/c11.py) [see also Model/NameFrag.v];
    the rendering of segments as text ('/@name.index') is compared with the
    implementation by the correspondence. *)
 From Coq Require Import ZArith List Bool Arith.
@@ -74,3 +76,116 @@ Theorem C11_fragments_are_distinct_in_every_reachable_state :
     o1 = o2.
 Proof. exact reach_fragments_distinct. Qed.
 Print Assumptions C11_fragments_are_distinct_in_every_reachable_state.
+
+
+(* ------------------------------------------------------------------------------------------------
+   IDS: what a resource does with uuids (xmi:id / "uuid", obj._internal_id, Resource.uuid_dict) and with id
+   attributes (EAttribute iD=True, registered in the same uuid_dict by the loaders).  Model/IdFrag.v is a state
+   machine for ONE resource following resource.py / xmi.py / json.py statement by statement (members of the tree,
+   _internal_id, uuid_dict as an association list, usable id-attribute text, use_uuid, and the uuid4() draws as a
+   counter); operations Save, Load of a document, Reload (save + load in a fresh resource), Add, Remove, SetIdAttr,
+   Ref (a reference written from another resource: _assign_uuid on the target), SetUuid.  `fragment_of` is what a
+   reference to the object is written with (uuid / id text / positional, the latter abstract: first part of this
+   file), `resolve` the dictionary path of Resource.resolve / _navigate_from.
+   PREMISES, all visible in the statements:
+     load_ok s d  : the freshness assumption on a loaded document -- its objects are new, two entries that share an
+                    id are the same object, every id is below the uuid4 counter (uuid4 never draws an id a document
+                    holds) and belongs to nobody yet;
+     op_ok s a    : load_ok for a Load; an id attribute is edited to a text nobody else carries;
+     bound_edit   : an id attribute edited AFTER the load must already be bound to the object in uuid_dict (the
+                    code never re-registers: C11_id_stale_attribute_refuted);
+     quiet v s a  : only for the variants that do not register drawn ids (before fix 330f52e): Save / Ref draw nothing.
+   TRUSTED: uuid4 modelled as a counter (never repeats); the tie to the code is the correspondence run_idfrag
+   (harness/props/c11.py, family idfrag).
+   REFUTED variants (witnesses by computation): the JSON loader before fix 3401449, _assign_uuid before fix
+   330f52e, an id attribute edited after the load. *)
+From PyecoreV Require Model.IdFrag Proofs.IdFragProofs.
+
+Theorem C11_id_resolves_in_a_registered_state :
+  forall s o, IdFragProofs.Inv s -> In o (IdFrag.members s) ->
+    IdFrag.resolve s (IdFrag.fragment_of s o) = Some o.
+Proof. exact IdFragProofs.resolve_back. Qed.
+Print Assumptions C11_id_resolves_in_a_registered_state.
+
+Theorem C11_id_fragments_distinct_in_a_registered_state :
+  forall s o1 o2, IdFragProofs.Inv s -> In o1 (IdFrag.members s) -> In o2 (IdFrag.members s) ->
+    IdFrag.fragment_of s o1 = IdFrag.fragment_of s o2 -> o1 = o2.
+Proof. exact IdFragProofs.fragments_distinct. Qed.
+Print Assumptions C11_id_fragments_distinct_in_a_registered_state.
+
+Theorem C11_id_after_a_load :
+  forall v s d o, IdFragProofs.WF s -> IdFragProofs.Inv s -> IdFragProofs.load_ok s d ->
+    In o (IdFrag.members (IdFrag.load v s d)) ->
+    IdFrag.resolve (IdFrag.load v s d) (IdFrag.fragment_of (IdFrag.load v s d) o) = Some o.
+Proof. exact IdFragProofs.load_resolves. Qed.
+Print Assumptions C11_id_after_a_load.
+
+Theorem C11_id_save_then_load_registers_everything :
+  forall v s, IdFragProofs.WF s ->
+    IdFragProofs.WF (IdFrag.step v s IdFrag.Reload) /\ IdFragProofs.Inv (IdFrag.step v s IdFrag.Reload).
+Proof. exact IdFragProofs.reload_WF_Inv. Qed.
+Print Assumptions C11_id_save_then_load_registers_everything.
+
+(* every reachable state of every history, HEAD: resolve(fragment(o)) = o and fragments pairwise distinct *)
+Theorem C11_id_in_every_history_on_head :
+  forall n h o, IdFragProofs.head_ok (IdFrag.init n) h ->
+    In o (IdFrag.members (IdFrag.run IdFrag.head (IdFrag.init n) h)) ->
+    IdFrag.resolve (IdFrag.run IdFrag.head (IdFrag.init n) h)
+                   (IdFrag.fragment_of (IdFrag.run IdFrag.head (IdFrag.init n) h) o) = Some o.
+Proof. exact IdFragProofs.head_history_resolves. Qed.
+Print Assumptions C11_id_in_every_history_on_head.
+
+Theorem C11_id_distinct_in_every_history_on_head :
+  forall n h o1 o2, IdFragProofs.head_ok (IdFrag.init n) h ->
+    In o1 (IdFrag.members (IdFrag.run IdFrag.head (IdFrag.init n) h)) ->
+    In o2 (IdFrag.members (IdFrag.run IdFrag.head (IdFrag.init n) h)) ->
+    IdFrag.fragment_of (IdFrag.run IdFrag.head (IdFrag.init n) h) o1 =
+    IdFrag.fragment_of (IdFrag.run IdFrag.head (IdFrag.init n) h) o2 -> o1 = o2.
+Proof. exact IdFragProofs.head_history_distinct. Qed.
+Print Assumptions C11_id_distinct_in_every_history_on_head.
+
+(* the same for every variant of the code, under the extra premise `quiet` (inside hist_ok) *)
+Theorem C11_id_in_every_quiet_history :
+  forall v n h o, IdFragProofs.hist_ok v (IdFrag.init n) h ->
+    In o (IdFrag.members (IdFrag.run v (IdFrag.init n) h)) ->
+    IdFrag.resolve (IdFrag.run v (IdFrag.init n) h) (IdFrag.fragment_of (IdFrag.run v (IdFrag.init n) h) o) = Some o.
+Proof. exact IdFragProofs.history_resolves. Qed.
+Print Assumptions C11_id_in_every_quiet_history.
+
+(* each operation keeps the two invariants (the induction step of the theorems above) *)
+Theorem C11_id_step_keeps_ids_distinct :
+  forall v s a, IdFragProofs.WF s -> IdFragProofs.op_ok s a -> IdFragProofs.WF (IdFrag.step v s a).
+Proof. exact IdFragProofs.WF_step. Qed.
+Print Assumptions C11_id_step_keeps_ids_distinct.
+
+Theorem C11_id_step_keeps_ids_registered :
+  forall v s a, IdFragProofs.WF s -> IdFragProofs.Inv s -> IdFragProofs.op_ok s a -> IdFragProofs.quiet v s a ->
+    IdFragProofs.Inv (IdFrag.step v s a).
+Proof. exact IdFragProofs.Inv_step. Qed.
+Print Assumptions C11_id_step_keeps_ids_registered.
+
+(* non-vacuity: histories that meet the premises and end in non-trivial states *)
+Example C11_id_premises_satisfiable : IdFragProofs.hist_ok IdFrag.head (IdFrag.init 100) IdFragProofs.h_ex.
+Proof. exact IdFragProofs.hist_ok_ex. Qed.
+Print Assumptions C11_id_premises_satisfiable.
+
+(* refuted variants *)
+Theorem C11_id_old_json_loader_refuted : exists h o,
+  In o (IdFrag.members (IdFrag.run IdFrag.old_json (IdFrag.init 0) h)) /\
+  IdFrag.resolves_back (IdFrag.run IdFrag.old_json (IdFrag.init 0) h) o = false /\
+  IdFrag.resolves_back (IdFrag.run IdFrag.head (IdFrag.init 0) h) o = true.
+Proof. exact IdFragProofs.old_json_loader_refuted. Qed.
+Print Assumptions C11_id_old_json_loader_refuted.
+
+Theorem C11_id_unregistered_draw_refuted : exists h o,
+  In o (IdFrag.members (IdFrag.run IdFrag.before_330f52e (IdFrag.init 0) h)) /\
+  IdFrag.resolves_back (IdFrag.run IdFrag.before_330f52e (IdFrag.init 0) h) o = false /\
+  IdFrag.resolves_back (IdFrag.run IdFrag.head (IdFrag.init 0) h) o = true.
+Proof. exact IdFragProofs.unregistered_draw_refuted. Qed.
+Print Assumptions C11_id_unregistered_draw_refuted.
+
+Theorem C11_id_stale_attribute_refuted : exists h o,
+  In o (IdFrag.members (IdFrag.run IdFrag.head (IdFrag.init 10) h)) /\
+  IdFrag.resolves_back (IdFrag.run IdFrag.head (IdFrag.init 10) h) o = false.
+Proof. exact IdFragProofs.stale_idattr_refuted. Qed.
+Print Assumptions C11_id_stale_attribute_refuted.
